@@ -219,7 +219,9 @@ def make_spec(rng, noline, c99=False):
     # code at the start of section 2 is local to yylex(): statement tracers, run on entry
     if R.chance(60):
         S.add("%{")
-        S.add(S.stmt_tracer("sect2_block", "\t"))
+        for _ in range(R.rint(1, 3)):
+            # (lines of the block with and without white space in front take different paths)
+            S.add(S.stmt_tracer("sect2_block", R.choice(["\t", "", "", "  "])))
         S.add("%}")
     if R.chance(40):
         S.add(S.stmt_tracer("sect2_indented", "    "))
